@@ -147,6 +147,8 @@ def check(program: Program, run: Run) -> None:
         for part, conds, in_rep in walk_parts(sk):
             if isinstance(part, Hole) and isinstance(part.value, Sym) and part.value.kind == "attr" \
                     and isinstance(part.value.args[0], Obj) and part.value.args[0].root and part.value.args[1] in na:
+                if any(("<class Term>" in show(cd, -20) or "<class Node>" in show(cd, -20)) and "isinstance" in show(cd, -20) for cd in conds):
+                    continue  # the formatting branch is taken only after an isinstance test excluded Term/Node
                 a = part.value.args[1]
                 where = f"{part.src[2]}:{part.src[1]}" if part.src else ""
                 run.ob("C08/R1 child node rendered through get_sql(ctx)", f"{c.qualname}:{a}", False, where=where)
